@@ -127,6 +127,36 @@ fn main() {
         };
         out.push(serde_json::json!({"scenario": name, "check": "fuel_charged_once", "ok": true, "src": src, "consumed": consumed, "detail": ""}));
     }
+    // ---- fuel: contexts in which nothing is written, and the exact threshold of a loop that is left early
+    {
+        let mut env = Environment::new();
+        env.set_fuel(Some(2));
+        let r = env.compile_expression("a + a + a + a").unwrap().eval(context! { a => 1 });
+        let ok = matches!(&r, Err(e) if e.kind() == ErrorKind::OutOfFuel);
+        out.push(serde_json::json!({"scenario": "fuel_expression_eval_is_metered", "check": "fuel_charged_once", "ok": ok, "native_verdict": true,
+            "detail": format!("a 7-instruction expression evaluated under a budget of 2: {:?}", r.map(|v| v.to_string()).map_err(|e| format!("{:?}", e.kind())))}));
+        let mut env = Environment::new();
+        env.set_fuel(Some(30));
+        env.add_template("base", "{% block b %}B{% endblock %}").unwrap();
+        env.add_template("child", "{% extends 'base' %}{% for i in range(60) %}{% set x = i %}{% endfor %}").unwrap();
+        let r = env.get_template("child").unwrap().render(());
+        let ok = matches!(&r, Err(e) if e.kind() == ErrorKind::OutOfFuel);
+        out.push(serde_json::json!({"scenario": "fuel_extends_preamble_is_metered", "check": "fuel_charged_once", "ok": ok, "native_verdict": true,
+            "detail": format!("60 loop iterations at the top level of an extending template under a budget of 30: {:?}", r.map_err(|e| format!("{:?}", e.kind())))}));
+        let src = "{% for i in range(1000) %}{{ i }}{% if i == 3 %}{% break %}{% endif %}{% endfor %}";
+        let mut env = Environment::new();
+        env.set_fuel(Some(1_000_000));
+        let c = env.template_from_str(src).unwrap().render_captured(()).map(|c| c.state().fuel_levels().map(|l| l.0).unwrap_or(0)).unwrap_or(0);
+        let mut results = Vec::new();
+        for b in [c, c + 1] {
+            let mut env = Environment::new();
+            env.set_fuel(Some(b));
+            results.push(env.render_str(src, ()).is_ok());
+        }
+        let ok = c > 0 && results == vec![false, true];
+        out.push(serde_json::json!({"scenario": "fuel_threshold_of_loop_with_break", "check": "fuel_charged_once", "ok": ok, "native_verdict": true,
+            "detail": format!("consumption {}; render under budget {} ok={}, under budget {} ok={} (expected false, true)", c, c, results[0], c + 1, results[1])}));
+    }
     for o in out {
         println!("{}", o);
     }
